@@ -87,6 +87,9 @@ def run(ctx):
             continue
         for _ in range(6 if th else 3):
             spans = [s for s in AC.gen_spans(rng, len(plain), rng.choice([1, 2, 3])) if s[0] < s[1]]
+            if rng.random() < 0.25:
+                # empty annotations as well, in particular at the very start and the very end of the document
+                spans = spans + [rng.choice([(0, 0), (len(plain), len(plain)), (1, 1)])]
             if not spans:
                 continue
             for mode in ("skip", "wrap"):
